@@ -175,6 +175,8 @@ impl Check for Convergence {
         // identifiers, so that one prefix can have several local paths)
         let v6 = rng.chance(1, 3);
         let en_local = rng.chance(1, 2);
+        // next-hop flaps: the kernel reports one of the next hops in use unreachable / reachable again
+        let en_nh = rng.chance(1, 3);
         let n_ops = rng.range(4, if thorough { 60 } else { 30 });
         let mut ops = Vec::new();
         let mut locals: Vec<(u64, u64, u64)> = Vec::new();
@@ -182,7 +184,8 @@ impl Check for Convergence {
         for _ in 0..n_ops {
             let s = rng.usize_below(n_src);
             let o = rng.usize_below(n_obs);
-            match rng.weighted(&[40, 16, if en_win { 14 } else { 0 }, 4, if en_down { 5 } else { 0 }, 7, if en_rr { 3 } else { 0 }, 3, if xpol == 2 { 5 } else { 0 }, if en_local { 12 } else { 0 }]) {
+            match rng.weighted(&[40, 16, if en_win { 14 } else { 0 }, 4, if en_down { 5 } else { 0 }, 7, if en_rr { 3 } else { 0 }, 3, if xpol == 2 { 5 } else { 0 }, if en_local { 12 } else { 0 }, if en_nh { 7 } else { 0 }]) {
+                10 => ops.push(jarr!["nh", rng.range(1, 2), rng.chance(2, 5), v6 && rng.chance(1, 3)]),
                 8 => ops.push(jarr!["pol", rng.below(3), rng.coin(), o]),
                 9 => {
                     let fam = if v6 && rng.chance(1, 3) { 1u64 } else { 0 };
@@ -276,7 +279,7 @@ impl Check for Convergence {
 
     fn info(&self) -> CheckInfo {
         CheckInfo {
-            rule: "1-3 source speakers (roles eBGP/iBGP/RR-client/RS-client/confed, optional add-path towards the DUT) and 1-2 observers (any role, send-max 1-3) on real sessions; history of announce / replace / withdraw / source crash (FIN, RST) / reconnect / route-refresh over 2-8 prefixes; in a third of the runs every session also carries IPv6 unicast and announcements, withdrawals and refreshes are spread over both families; in half of the runs the operator originates and deletes routes through the AddPath / DeletePath handlers (path identifiers 0-2, so one prefix can hold several local paths; with and without an explicit next hop); in 3 of 5 runs a global export policy (reject community 65000:1, set MED on the rest) so that a replacement can make a route non-exportable, in 2 of 5 also the global export policy, the global import policy and one observer's own export policy (and its twin's) added and deleted through the gRPC handlers during the history, each switch followed by the operator's soft reset (out towards the observers, in for the sources); the observer's receive window is opened and closed by the schedule, pipes have seeded latency, fragmentation and capacity, 1-3 shards. At check points: windows opened, quiescence, an identically configured twin connects and receives its initial dump; mirror(observer) must equal mirror(twin) (prefix, path id, attributes, next hop). non-trivial = at least one RIB change was delivered to an observer while its window was closed, or a check compared a non-empty mirror; distinct = hash of the seam-event sequence (which connection read/wrote how much, in order)".into(),
+            rule: "1-3 source speakers (roles eBGP/iBGP/RR-client/RS-client/confed, optional add-path towards the DUT) and 1-2 observers (any role, send-max 1-3) on real sessions; history of announce / replace / withdraw / source crash (FIN, RST) / reconnect / route-refresh / next-hop flap (the kernel reports a next hop in use unreachable, later reachable; a third of the runs) over 2-8 prefixes; in a third of the runs every session also carries IPv6 unicast and announcements, withdrawals and refreshes are spread over both families; in half of the runs the operator originates and deletes routes through the AddPath / DeletePath handlers (path identifiers 0-2, so one prefix can hold several local paths; with and without an explicit next hop); in 3 of 5 runs a global export policy (reject community 65000:1, set MED on the rest) so that a replacement can make a route non-exportable, in 2 of 5 also the global export policy, the global import policy and one observer's own export policy (and its twin's) added and deleted through the gRPC handlers during the history, each switch followed by the operator's soft reset (out towards the observers, in for the sources); the observer's receive window is opened and closed by the schedule, pipes have seeded latency, fragmentation and capacity, 1-3 shards. At check points: windows opened, quiescence, an identically configured twin connects and receives its initial dump; mirror(observer) must equal mirror(twin) (prefix, path id, attributes, next hop). non-trivial = at least one RIB change was delivered to an observer while its window was closed, or a check compared a non-empty mirror; distinct = hash of the seam-event sequence (which connection read/wrote how much, in order)".into(),
             components_real: vec!["accept_connection, PeerSession::{run,session_loop,run_select,rx_msg,rx_update,handle_prefix_update,do_route_refresh,on_established,flush_tx}".into(), "export::process_nlri_change, ExportMap, peer_tx::PendingTx".into(), "TableManager, table::Table".into(), "fsm::PeerFsm, packet::PeerCodec (both directions)".into(), "GrpcService::{start_bgp, add_path, delete_path, local_path, add_policy_assignment, delete_policy_assignment, reset_peer}".into()],
             components_stubbed: vec!["TCP, clock, listener/dispatch loop, remote speakers (scripted; decode with the repository codec negotiated from their side + an independent frame walker)".into()],
             assumptions: vec!["observers and twins announce nothing, so echo suppression cannot differ between them".into(), "a mirror bug shared by encoder and decoder is invisible (framing is checked independently)".into()],
@@ -454,6 +457,17 @@ async fn run(case: Json, tol: Tolerate) -> Outcome {
                     }
                     t.w.quiesce().await;
                 }
+            }
+            "nh" => {
+                let k = op.at(1).as_u64() as u16;
+                let addr = if op.at(3).as_bool() { IpAddr::V6(Ipv6Addr::new(0x2001, 0xdb8, 0xffff, 0, 0, 0, 0, k)) } else { IpAddr::V4(Ipv4Addr::new(192, 0, 2, k as u8)) };
+                let reachable = op.at(2).as_bool();
+                let _ = t.w.kernel_event_tx.send(kernel::KernelEvent::NexthopUpdate { addr, reachable });
+                out.hit(if reachable { "fault.nexthop-reachable-report" } else { "fault.nexthop-unreachable-report" });
+                if (n_src..n_src + n_obs).any(|o| t.nodes[o].spk.conn.as_ref().map(|c| !c.ctl().window_open()).unwrap_or(false)) {
+                    closed_window_changes += 1;
+                }
+                t.w.quiesce().await;
             }
             "win" => {
                 let o = n_src + op.at(1).as_usize() % n_obs;
